@@ -1,4 +1,4 @@
-# also: C01 C05
+# also: C01 C05 C03
 """C07 / C01 / C05 - VHDX: the two table walks and the region bookkeeping.
 
 _find_meta_region and _find_meta_entry loop over a table whose entry count is
@@ -557,6 +557,31 @@ def vhdx_state_is_a_function_of_the_stream():
     check('unique/format-match', a.format_match == b.format_match
           and a.format_match == (q >= 8 and S[0:8] == b'vhdxfile'))
     cover('unique/reached')
+
+
+@proof(['C03', 'C01'], targets=[(FI, 'FileInspector.complete'),
+                                (FI, 'VHDXInspector.format_match')],
+       native=False)
+def vhdx_decision_is_not_revised():
+    """C03 no-revision for VHDX: an inspector in R_VHDX(S, q) that is
+    complete is matched by every inspector in R_VHDX(S, q'), q' >= q: still
+    complete, same format_match (and the later prefix is not rejected, by
+    vhdx_step + vhdx_error_is_monotone_in_the_prefix)."""
+    M = load(FI)
+    S = fresh_bytes('S')
+    q = fresh_int('q', 0, len(S))
+    q1 = fresh_int('q_later', q, len(S))
+    shapes = ['ident+header', 'ident+header+metadata',
+              'ident+header+metadata+vds']
+    a = put_in_R(M, S, q, pick('first', shapes), '_a')
+    if not a.complete:
+        return
+    b = put_in_R(M, S, q1, pick('later', shapes), '_b')
+    check('stable/complete-stays-complete', b.complete)
+    check('stable/format-match-kept', b.format_match == a.format_match)
+    if a.has_region('vds') and a.region('vds').length == 8:
+        check('stable/virtual-size-kept', b.virtual_size == a.virtual_size)
+    cover('stable/reached')
 
 
 @proof(['C01'], targets=[(FI, 'VHDXInspector.post_process')], native=False)
